@@ -22,6 +22,7 @@
 
 #include <qb/qbarray.h>
 #include <qb/qbutil.h>
+#include "verif_hook.h"
 
 /* The highest ARRAY_INDEX_BITS_BINS bits of the array index are the
  * number of the bin containing the indicated element, while the
@@ -60,6 +61,7 @@ _grow_bin_array(struct qb_array * a, size_t new_bin_size)
 {
 	size_t b;
 
+	QB_VERIF_POINT(QB_VP_ARRAY_TABLE_WRITE, a, new_bin_size, 0);
 	a->bin = realloc(a->bin, sizeof(void*) * new_bin_size);
 	if (a->bin == NULL) {
 		return -ENOMEM;
@@ -123,22 +125,27 @@ qb_array_index(struct qb_array * a, int32_t idx, void **element_out)
 		return -ERANGE;
 	}
 	(void)qb_thread_lock(a->grow_lock);
+	QB_VERIF_POINT(QB_VP_ARRAY_LOCKED, a, 0, 0);
 	if ((uint32_t) idx >= a->max_elements) {
 		if (a->autogrow_elements == 0) {
+			QB_VERIF_POINT(QB_VP_ARRAY_UNLOCK, a, 0, 0);
 			(void)qb_thread_unlock(a->grow_lock);
 			return -ERANGE;
 		} else {
 			/* qb_array_grow gets the lock */
+			QB_VERIF_POINT(QB_VP_ARRAY_UNLOCK, a, 0, 0);
 			(void)qb_thread_unlock(a->grow_lock);
 			rc = qb_array_grow(a, idx + 1);
 			if (rc != 0) {
 				return rc;
 			}
 			(void)qb_thread_lock(a->grow_lock);
+			QB_VERIF_POINT(QB_VP_ARRAY_LOCKED, a, 0, 0);
 		}
 	}
 	b = BIN_NUM_GET((uint32_t) idx);
 	assert(b < MAX_BINS);
+	QB_VERIF_POINT(QB_VP_ARRAY_TABLE_READ, a, b, 0);
 
 	if (b >= a->num_bins || a->bin[b] == NULL) {
 		int32_t bin_alloced = QB_FALSE;
@@ -158,17 +165,20 @@ qb_array_index(struct qb_array * a, int32_t idx, void **element_out)
 			bin_alloced = QB_TRUE;
 		}
 		/* new_bin_cb() needs to be called unlocked so can't extend the lock after the if block */
+		QB_VERIF_POINT(QB_VP_ARRAY_UNLOCK, a, 0, 0);
 		(void)qb_thread_unlock(a->grow_lock);
 		if (bin_alloced && a->new_bin_cb) {
 			a->new_bin_cb(a, b);
 		}
 	} else {
+		QB_VERIF_POINT(QB_VP_ARRAY_UNLOCK, a, 0, 0);
 		(void)qb_thread_unlock(a->grow_lock);
 	}
 
 	elem = ELEM_NUM_GET(idx);
 	assert(elem < MAX_ELEMENTS_PER_BIN);
 
+	QB_VERIF_POINT(QB_VP_ARRAY_TABLE_READ, a, b, 1);
 	bin = a->bin[b];
 	*element_out = (bin + (a->element_size * elem));
 
@@ -176,6 +186,7 @@ qb_array_index(struct qb_array * a, int32_t idx, void **element_out)
 
 unlock_error:
 
+	QB_VERIF_POINT(QB_VP_ARRAY_UNLOCK, a, 0, 0);
 	(void)qb_thread_unlock(a->grow_lock);
 	return rc;
 }
@@ -199,7 +210,9 @@ qb_array_num_bins_get(struct qb_array * a)
 		return -EINVAL;
 	}
 	(void)qb_thread_lock(a->grow_lock);
+	QB_VERIF_POINT(QB_VP_ARRAY_LOCKED, a, 0, 0);
 	bins = a->num_bins;
+	QB_VERIF_POINT(QB_VP_ARRAY_UNLOCK, a, 0, 0);
 	(void)qb_thread_unlock(a->grow_lock);
 	return bins;
 }
@@ -224,7 +237,9 @@ qb_array_grow(struct qb_array * a, size_t max_elements)
 	}
 
 	(void)qb_thread_lock(a->grow_lock);
+	QB_VERIF_POINT(QB_VP_ARRAY_LOCKED, a, 0, 0);
 	if (max_elements <= a->max_elements) {
+		QB_VERIF_POINT(QB_VP_ARRAY_UNLOCK, a, 0, 0);
 		(void)qb_thread_unlock(a->grow_lock);
 		return 0;
 	}
@@ -235,6 +250,7 @@ qb_array_grow(struct qb_array * a, size_t max_elements)
 			rc = _grow_bin_array(a, b + 1);
 		}
 	}
+	QB_VERIF_POINT(QB_VP_ARRAY_UNLOCK, a, 0, 0);
 	(void)qb_thread_unlock(a->grow_lock);
 	return rc;
 }
